@@ -14,7 +14,7 @@ SPEC = dict(
     rule='seeded histories of 1..40 control cycles with interleaved RPM polls, external interference and device faults on real '
          'HwMonFan/FileFan/CmdFan objects driven through the real UpdateFanSpeed/measureRpm; generators random/stall/const/ext/fault; '
          'PWM maps identity/quantiser/sparse/monotone-sparse/plateau; algorithms direct, rate-limited, PID (default and random gains); '
-         'curve values -500..800; dt 0, 1 ns, 50 ms..2 s, hours. Non-trivial = at least two control cycles; distinct = distinct case terms. Second driver `startup` (the start-up driver of C15, observer Drv/StartupC05.v): every start it performs - first start with PWM sweep and RPM-curve measurement through the real Run, restart, start after fan init / fan reset, configured pwmMap / minPwm+maxPwm, hwmon / file / cmd fans, concurrent starts on one database, CLI-driven histories - is followed by three real control cycles (ticker-driven UpdateFanSpeed); nothing but the controller writes the fan files and every write succeeds, so GetStatistics().UnexpectedPwmValueCount must be 0 after them; judged are the starts that meet the standing assumption reads_back (every output of the controller\'s final PWM map is a value the fake device shows when written; configured/stored maps that contradict the device are generated too and not judged).',
+         'curve values -500..800; dt 0, 1 ns, 50 ms..2 s, hours. Non-trivial = at least two control cycles; distinct = distinct case terms. Second driver `startup` (the start-up driver of C15, observer Drv/StartupC05.v): every start it performs - first start with PWM sweep and RPM-curve measurement through the real Run, restart, start after fan init / fan reset, configured pwmMap / minPwm+maxPwm, hwmon / file / cmd fans, concurrent starts on one database, CLI-driven histories - is followed by three real control cycles (ticker-driven UpdateFanSpeed); nothing but the controller writes the fan files and every write succeeds, so GetStatistics().UnexpectedPwmValueCount must be 0 after them; judged are the starts that meet the standing assumption reads_back (every output of the PWM map the start-up MODEL expects the controller to use after that start - configured, stored or measured by the start itself - is a value the fake device shows when written; configured/stored maps that contradict the device are generated too and not judged).',
     assumptions=['PWM map non-empty with strictly increasing keys (pm_ok); 0 <= min <= max <= 255', 'outputs of the PWM map are never -1'],
     trusted_base=['Print Assumptions: FloatAxioms.Leibniz.eqb_spec (stdlib axiom, used to lift the computed exactness of float64(max)-float64(min) on 0..255) and the kernel float/int63 primitives; no other axiom', 'hand-written model Model/Controller.v of calculateTargetPwm / ensureNoThirdPartyIsMessingWithUs / trySetManualPwm / setPwm / measureRpm, Model/Fan.v, Model/ControlLoop.v: agreement with the Go code is observed bit-exactly on the generated histories (driver ctrl), not proved', 'one control cycle is atomic in the model; interference during a cycle is represented by interference just before or just after it', 'the curve is a stub SpeedCurve in the driver (real curves: C06/C07); the PID clock is virtual (overlay rewrite of time.Now in util/pid.go)', 'gen/Consts.v regenerated from the source: clamp bounds, rescale divisor, stall threshold, post-raise average'],
     finding_codes={}, finding_text={},
